@@ -85,7 +85,10 @@ def run(s):
     s.explanation = ("Deductive: (1) tables read from the real module ASTs -- in each of the four task modules every (term, function) row of "
                      "SOUNDEVENT_METRICS / EXAMPLE_METRICS / RUN_METRICS pairs a term with the metric function of that name, rows of one "
                      "table carry pairwise different terms, and the terms of soundevent.terms.metrics have pairwise different names and "
-                     "labels (so a label-keyed AOEF mapping cannot merge two of them); (2) true_class_probability against its definition; "
+                     "labels (so a label-keyed AOEF mapping cannot merge two of them); (2) true_class_probability against its definition, and the accuracy / "
+                     "balanced accuracy / top-3 accuracy wrappers: what they hand to scikit-learn is the truth with unlabelled items as the extra "
+                     "class index and the arg-max (resp. the full matrix, k = 3, labels 0..m) of the scores extended by the remaining mass -- numpy "
+                     "row sums / arg-max and the scikit-learn scores are uninterpreted functions, so this proves the plumbing, not the numbers; "
                      "(3) the per-item wiring of clip_classification._evaluate_example and sound_event_classification._evaluate_sound_event "
                      "(the value stored under the term is that metric of the encoded truth and scores; score = the same probability), "
                      "encoders through their C19 contracts; (4) the three _compute_overall_score functions = mean of the scores present "
